@@ -138,6 +138,27 @@ class LoopView:
 LOOPS = {}     # (qualname, ordinal) -> LoopSpec
 
 
+def _properties_loop_inv(lv):
+    """`for key in properties: self[key] = properties[key]` in a constructor: only the new object's data (and its announcement ghost)
+    change; every key handled so far is stored with the dictionary's value, announced before it was stored; no name table moves
+    (the object has no parent yet)"""
+    c = lv.ctx; h, hl = lv.h, lv.hl
+    r = lv.env['self'][1]; pval = lv.dom[2]
+    out = []
+    x = Const('xq_pl', c.Ref); k = Const('kq_pl', c.Key)
+    for f in ('dhas', 'dval', 't:data', 'lh:data', 'lv:data'):
+        out.append(('C14', 'properties-loop.others-untouched.' + f, ForAll([x], Implies(x != r, h[f][x] == hl[f][x]), patterns=[h[f][x]])))
+    out.append(('C14', 'properties-loop.name-tables-untouched', h['ns'] == hl['ns']))
+    out.append(('C19', 'properties-loop.own-data-as-announced', ForAll([k], Implies(h['t:data'][r][k],
+                And(h['dhas'][r][k] == h['lh:data'][r][k], Implies(h['lh:data'][r][k], h['dval'][r][k] == h['lv:data'][r][k]))), patterns=[h['t:data'][r][k]])))
+    out.append(('C19', 'properties-loop.handled-keys-stored', ForAll([k], Implies(lv.seen[k], And(h['dhas'][r][k], h['dval'][r][k] == pval[k])), patterns=[lv.seen[k]])))
+    out.append(('C14', 'properties-loop.policy-entry-untouched', And(h['dhas'][r][c.KEY_NS] == hl['dhas'][r][c.KEY_NS], h['dval'][r][c.KEY_NS] == hl['dval'][r][c.KEY_NS])))
+    return out
+
+
+PROPERTIES_LOOP = LoopSpec('keys', ['dhas', 'dval', 't:data', 'lh:data', 'lv:data', 'ns'], _properties_loop_inv)
+
+
 def loop_spec(qual, ordinal, shape, modifies, locals_=None):
     def deco(fn):
         LOOPS[(qual, ordinal)] = LoopSpec(shape, modifies, fn, locals_)
@@ -202,7 +223,7 @@ class IRSpec:
                 else:
                     names = [target]
                 if v[0] != 'ref':
-                    table = {'set': ['set'], 'int': ['int', 'bool'], 'str': ['str'], 'dict': ['dict_empty']}
+                    table = {'set': ['set'], 'int': ['int', 'bool'], 'str': ['str'], 'dict': ['dict_empty', 'pdict']}
                     return cont(s, B(BoolVal(any(v[0] in table.get(n, []) for n in names))))
                 ir = [n for n in names if n in IR_CLASSES]
                 if any(n == 'self.Direction' for n in names):
@@ -701,6 +722,10 @@ class IRSpec:
         if present: goal = And(goal, h['lv:data'][e][k] == v)
         self._cover(se, st, '_data[%s]' % ('set' if present else 'del'), goal)
 
+    def on_data_update(self, se, st, e, ph, pv):
+        h = st.heap; k = Const('kq_cov', self.ctx.Key)
+        self._cover(se, st, '_data.update', ForAll([k], Implies(ph[k], And(h['t:data'][e][k], h['lh:data'][e][k], h['lv:data'][e][k] == pv[k]))))
+
     # ---------------------------------------------------------------- C19 (B2): nothing announced in vain
     def in_vain(self, h):
         c = self.ctx; out = []
@@ -744,13 +769,16 @@ class IRSpec:
                     se.block(s2, node.body, lambda s3: go(s3, idx + 1), k_ret, lambda s3: nxt(s3), lambda s3: go(s3, idx + 1))
                 return go(s, 0)
             spec = LOOPS.get((fr.fi.qual, ordinal))
+            if spec is None and dom[0] == 'pdict' and ast.unparse(node.body[0]).replace(' ', '') == 'self[%s]=%s[%s]' % (
+                    node.target.id, ast.unparse(node.iter), node.target.id) and len(node.body) == 1:
+                spec = PROPERTIES_LOOP        # `for key in properties: self[key] = properties[key]` of the element constructors
             if spec is None and getattr(self, 'pure_loops', False) and dom[0] in ('zip', 'list', 'range'):
                 return self.pure_loop(se, s, node, dom, nxt, k_ret)
             if spec is None:
                 raise Unsupported('no invariant registered for loop %d of %s (iterates %s)' % (ordinal, fr.fi.qual, dom[0]))
             if dom[0] == 'ref':
                 return se.exit(s, 'TypeError')
-            shape = {'set': 'set', 'list': 'list', 'pinsview': 'opins', 'odict_values': 'opins', 'range': 'range', 'zip': 'zip'}.get(dom[0])
+            shape = {'set': 'set', 'list': 'list', 'pinsview': 'opins', 'odict_values': 'opins', 'range': 'range', 'zip': 'zip', 'pdict': 'keys'}.get(dom[0])
             if shape != spec.shape:
                 raise Unsupported('loop %d of %s iterates a %s, its invariant was written for a %s' % (ordinal, fr.fi.qual, shape, spec.shape))
             self.cut(se, s, node, spec, dom, shape, ordinal, nxt, k_ret)
@@ -864,6 +892,8 @@ class IRSpec:
         elif shape == 'opins':
             inst = dom[1]
             D = st.heap['okeys'][inst]          # the iteration is over the dictionary as it is at loop entry
+        elif shape == 'keys':
+            D = dom[1]                          # the key set of the dictionary parameter
         elif shape == 'range':
             n = dom[1]
         elif shape == 'zip':
@@ -898,7 +928,8 @@ class IRSpec:
                 x = Const('xq_al', c.Ref)
                 s.pc.append(ForAll([x], Implies(hl['alloc'][x], s.heap['alloc'][x]), patterns=[s.heap['alloc'][x]]))
 
-        empty = K(c.Ref, False)
+        esort = c.Key if shape == 'keys' else c.Ref
+        empty = K(esort, False)
         # (1) initialisation
         lv0 = view(st, empty if n is None else None, None, IntVal(0) if n is not None else None, st.heap)
         for prop, name, g in spec.inv(lv0):
@@ -908,8 +939,8 @@ class IRSpec:
         sb = st.fork(); sb.env = dict(sb.env)
         havoc(sb)
         if n is None:
-            seen = c.fresh('seen', c.SetS); it = c.fresh('it', c.Ref)
-            x = Const('xq_seen', c.Ref)
+            seen = c.fresh('seen', ArraySort(esort, BoolSort())); it = c.fresh('it', esort)
+            x = Const('xq_seen', esort)
             sb.pc += [ForAll([x], Implies(seen[x], D[x]), patterns=[seen[x]]), D[it], Not(seen[it])]
             lvb = view(sb, seen, it, None, sb.heap)
             sb.pc += [g for _, _, g in spec.inv(lvb)]
@@ -919,6 +950,8 @@ class IRSpec:
                 #  the real code iterates the view `self.pins` -> iter(self._dict.values()))
                 elem = hl['ovals'][dom[1]][it]
                 self.bind_target(sb, node.target, R(elem))
+            elif shape == 'keys':
+                self.bind_target(sb, node.target, ('key', it))
             else:
                 self.bind_target(sb, node.target, R(it))
             nseen = Store(seen, it, True); nidx = None
